@@ -10,6 +10,20 @@ exact VertexDict keys) versus splipy.splinemodel on
 The implementation gets tolerance-level noise on every control point (independently per patch), the
 model the exact nets: agreement therefore also states insensitivity to such perturbations.
 
+Known-finding classes (`classify`; all three reproduce on the pinned tree, minimal inputs in
+corpus/C17/000-known-defect-reproducers.json):
+  nodeview-section-wrong-frame        NodeView.section computes `self.node.obj.section(*section)` with the section of
+                                      the MAPPED frame; any view whose orientation moves the section raises
+                                      OrientationError.  The model follows the PROPERTY (section taken in the reference
+                                      frame, `orientation.map_section(section)`), and also returns the literal-code answer
+                                      so that `compare` can say that the implementation equals the model of the code.
+  compute-normalises-weights-only     Orientation.compute divides only the weight column by its sum: two rational nets
+                                      with equal pre-multiplied coordinates and weights differing by a global factor
+                                      (different geometry) are reported as matching.  Model follows the code.
+  rational-vertex-key-ignores-weight  ObjectCatalogue keys vertices by `cps[..., :-1]` (pre-multiplied coordinates, weight
+                                      dropped): distinct points (x1,w1), (x2,w2) with w1*x1 == w2*x2 share a vertex node
+                                      (wrong counts; follow-up OrientationError on edges).  Model follows the code.
+
 Oracle (model independent): the cell complex computed combinatorially from quantised section nets
 (entity = class of section nets under all axis permutations/reversals), compared with what SplineModel
 reports; reported orientations applied with numpy; group laws checked on the real Orientation class.
